@@ -28,6 +28,7 @@ def showOut : Out → String
   | .batch b => if b.isEmpty then "empty" else "batch=" ++ hexList b
   | .empty => "empty"
   | .restarted => "ok"
+  | .errStore => "err:store"
 
 /-- repeat `next` until nothing (or an error) comes out -/
 def drain (cfg : Cfg) (op : Queue.Op) : Nat → St → List Batch → St × List Batch × Out
@@ -50,12 +51,27 @@ def doReset (o : Op) : S × String :=
   | some m, some n, some i => ({ mode := m, cfg := { id := i, max := n }, st := {} }, "ok")
   | _, _, _ => ({}, "bad-op")
 
+/-- an optional small decimal argument: absent → `some none`, malformed → `none` -/
+def optNat? (o : Op) (k : String) : Option (Option Nat) :=
+  match o.get? k with
+  | none => some none
+  | some v => if v.all Char.isDigit then (v.toNat?).bind fun n => if n < maxBound then some (some n) else none else none
+
 def at? (o : Op) : Option Bool :=
   match o.get? "at" with | some "0" => some false | some "1" => some true | _ => none
 
 def run1 (s : S) (op : Queue.Op) (pre : String) : S × String :=
   let r := step realKey s.cfg s.st op
   ({ s with st := r.1 }, pre ++ showOut r.2 ++ " " ++ showDisk r.1.disk)
+
+/-- a crash whose restart comes with a new queue bound: the crash, then (the process being down anyway)
+a restart with that bound – `Load` does not depend on the bound, so this is one restart -/
+def run1Max (s : S) (op : Queue.Op) (pre : String) (newMax : Option Nat) : S × String :=
+  let r := step realKey s.cfg s.st op
+  let st := match newMax with
+    | none => r.1
+    | some n => (step realKey s.cfg r.1 (Queue.Op.restartMax n)).1
+  ({ s with st := st }, pre ++ showOut r.2 ++ " " ++ showDisk st.disk)
 
 def step (s : S) (line : String) : S × String :=
   let o := parseOp line
@@ -71,15 +87,23 @@ def step (s : S) (line : String) : S × String :=
     match inSeq, o.bytes? "id" with
     | true, some id => run1 s (Queue.Op.next id) ""
     | _, _ => bad
-  | "restart" => run1 s Queue.Op.restart ""
+  | "restart" =>
+    match optNat? o "max" with
+    | some none => run1 s Queue.Op.restart ""
+    | some (some n) => run1 s (Queue.Op.restartMax n) ""
+    | none => bad
+  | "fail" =>
+    match optNat? o "put", optNat? o "del" with
+    | some p, some d => run1 s (Queue.Op.fail (p.getD 0) (d.getD 0)) ""
+    | _, _ => bad
   | "crash-submit" =>
-    match inSeq, at? o, o.bytes? "id", (o.get? "txs").bind parseHexList with
-    | true, some a, some id, some b => run1 s (Queue.Op.crashSubmit a id b) "crashed ret="
-    | _, _, _, _ => bad
+    match inSeq, at? o, o.bytes? "id", (o.get? "txs").bind parseHexList, optNat? o "max" with
+    | true, some a, some id, some b, some m => run1Max s (Queue.Op.crashSubmit a id b) "crashed ret=" m
+    | _, _, _, _, _ => bad
   | "crash-next" =>
-    match inSeq, at? o, o.bytes? "id" with
-    | true, some a, some id => run1 s (Queue.Op.crashNext a id) "crashed ret="
-    | _, _, _ => bad
+    match inSeq, at? o, o.bytes? "id", optNat? o "max" with
+    | true, some a, some id, some m => run1Max s (Queue.Op.crashNext a id) "crashed ret=" m
+    | _, _, _, _ => bad
   | "drain" =>
     match inSeq, o.bytes? "id" with
     | true, some id =>
